@@ -95,6 +95,7 @@ type CallRecord struct {
 }
 
 type Result struct {
+	Aborted     bool          `json:"aborted,omitempty"`
 	ID          string        `json:"id"`
 	Alone       []*CallRecord `json:"alone,omitempty"`
 	Conc        []*CallRecord `json:"conc"`
@@ -836,7 +837,7 @@ func (e *Engine) check(c *core.Ctx, sp spec) (*core.Outcome, error) {
 		if res.ToolTrouble != "" {
 			return nil, build.Toolf("scenario %s: %s", res.ID, res.ToolTrouble)
 		}
-		if res.Missing {
+		if res.Missing || res.Aborted {
 			out.Violations = append(out.Violations, core.Violation{Key: "died", Oracle: "the simulation process survives", What: clip(res.Stderr, 1500), Seed: c.Seed, Scenario: replayScenario{"plain", scs[i]}})
 			continue
 		}
@@ -892,7 +893,7 @@ func (e *Engine) check(c *core.Ctx, sp spec) (*core.Outcome, error) {
 				Scenario: replayScenario{"race", raceScs[i]}, Trace: map[string]any{"report": rep, "sched_hash": res.SchedHash},
 			})
 		}
-		if res.Deadlock != "" && sp.id == "C19" {
+		if res.Deadlock != "" && sp.id == "C19" && !res.Aborted {
 			fails = append(fails, fail{raceScs[i], problem{"no task blocks forever (bubble deadlock)", clip(res.Deadlock, 1500), "deadlock"}, "race"})
 		}
 	}
